@@ -111,10 +111,20 @@ void gen_family(Src& s, Call& k, bool smooth_only)
 			break;
 		case 2:
 			k.par.push_back(std::pow(10.0, s.uniform(-3, 3)));
-			for(int i = 0; i < d; i++)
 			{
-				k.par.push_back(s.uniform(0.1, 0.9));						 // centre (off-centre)
-				k.par.push_back(s.uniform(d <= 2 ? 0.15 : 0.3, 1.0));	 // width: keeps the effective sample count >= ~50
+				// sometimes one axis carries a narrow peak (1-3 % of the width, the other axes stay wide): a few per cent of the points still
+				// land on it, enough for the error to be Gaussian, and most of that axis is numerically empty
+				int narrow = s.chance(0.25) ? (int) s.range(0, d - 1) : -1;
+				for(int i = 0; i < d; i++)
+				{
+					k.par.push_back(s.uniform(0.1, 0.9));	 // centre (off-centre)
+					if(i == narrow)
+						k.par.push_back(s.uniform(0.01, 0.03));
+					else
+						k.par.push_back(s.uniform(narrow >= 0 ? 0.5 : (d <= 2 ? 0.15 : 0.3), 1.0));	  // width: keeps the effective sample count >= ~50
+				}
+				if(narrow >= 0)
+					k.ncalls = std::max(k.ncalls, 4000);
 			}
 			break;
 		case 3:
@@ -383,7 +393,7 @@ VCLAUSE(containment_and_constants, 60, 2500, 50000, "the region is offset from t
 // The standardised errors of n calls (each divided by the plain Monte Carlo standard error of its budget, an upper bound for the adaptive
 // methods) average to zero: sqrt(n) times their mean is within 6 with probability 1-2e-9 for an unbiased estimator, and a bias of half a
 // standard error per call shows as 0.5*sqrt(n) = 5.6 ... 7 for n = 128 ... 200.
-VCLAUSE(unbiasedness, 9000, 160, 3200, "the batch uses an adaptive method (Vegas or Miser) or more than one dimension")
+VCLAUSE(unbiasedness, 9000, 100, 2400, "the batch uses an adaptive method (Vegas or Miser) or more than one dimension")
 {
 	Src& s	   = c.s;
 	int method = (int) s.range(0, 2), n = 200;
